@@ -22,7 +22,8 @@ impl SchemaMut {
 		let mut state = WriteCanonicalFormState {
 			w: ErrorConversionWriter(Rabin::default()),
 			named_type_written: vec![false; self.nodes.len()],
-			unnamed_in_progress: vec![false; self.nodes.len()],
+			n_named_types_written: 0,
+			unnamed_in_progress: vec![0; self.nodes.len()],
 		};
 		state.write_canonical_form(self, SchemaKey::from_idx(0))?;
 		Ok(state.w.0.finish())
@@ -32,17 +33,27 @@ impl SchemaMut {
 struct WriteCanonicalFormState<W> {
 	w: ErrorConversionWriter<W>,
 	named_type_written: Vec<bool>,
-	/// Unnamed nodes (array, map, union) that are currently being written:
-	/// encountering one of them again means that we are in a cycle that no
-	/// named reference can break
-	unnamed_in_progress: Vec<bool>,
+	/// How many named types have been fully written (not as references) so far
+	n_named_types_written: usize,
+	/// For unnamed nodes (array, map, union) that are currently being written:
+	/// `1 + n_named_types_written` as it was when we last entered them (`0` if
+	/// they are not being written).
+	///
+	/// Encountering one of them again without having written a new named type
+	/// in between means that we are in a cycle that no named reference can
+	/// break. If however a named type was written in between, the next time
+	/// around it will be written as a reference, so we can allow another
+	/// round (this is what happens for e.g. `struct Tree { children: Vec<Tree> }`
+	/// when the array node is shared).
+	unnamed_in_progress: Vec<usize>,
 }
 
 impl<W> WriteCanonicalFormState<W> {
 	fn enter_unnamed_node(&mut self, key: SchemaKey) -> Result<(), SchemaError> {
+		let generation = self.n_named_types_written + 1;
 		match self.unnamed_in_progress.get_mut(key.idx) {
-			Some(in_progress @ false) => {
-				*in_progress = true;
+			Some(entered_at) if *entered_at < generation => {
+				*entered_at = generation;
 				Ok(())
 			}
 			_ => Err(SchemaError::new(
@@ -51,8 +62,8 @@ impl<W> WriteCanonicalFormState<W> {
 		}
 	}
 	fn leave_unnamed_node(&mut self, key: SchemaKey) {
-		if let Some(in_progress) = self.unnamed_in_progress.get_mut(key.idx) {
-			*in_progress = false;
+		if let Some(entered_at) = self.unnamed_in_progress.get_mut(key.idx) {
+			*entered_at = 0;
 		}
 	}
 }
@@ -77,6 +88,7 @@ impl<W: Write> WriteCanonicalFormState<W> {
 				Ok(match &mut state.named_type_written[key.idx] {
 					b @ false => {
 						*b = true;
+						state.n_named_types_written += 1;
 						true
 					}
 					true => {
